@@ -143,7 +143,21 @@ def analyse_receive(ctx):
         ctx.violate("C05.peel", W(loop), loop.stmt, "expected exactly one toUpper inside the peel loop, found %d in the enabled branch" % len(ups))
         return None
     up = ups[0]
-    # header size H: slice self.B[:H] feeding struct.unpack
+    # optional read cursor: a local initialised to 0 before the loop and advanced inside it; the logical buffer is then
+    # self.B[cursor:] and every expectation below is shifted by it
+    cursor = None
+    for n in body:
+        s = n.stmt
+        if n.kind == "stmt" and isinstance(s, ast.AugAssign) and isinstance(s.op, ast.Add) and isinstance(s.target, ast.Name):
+            init = [m for m in region if m.id not in body_ids and m.kind == "stmt" and isinstance(m.stmt, ast.Assign) and len(m.stmt.targets) == 1
+                    and isinstance(m.stmt.targets[0], ast.Name) and m.stmt.targets[0].id == s.target.id and cval(ev, m.stmt.value) == (True, 0)]
+            if init:
+                cursor = (s.target.id, n, init[0])
+    base = {cursor[0]: 1} if cursor else {}
+
+    def shifted(d):
+        return linear._add(d, base, 1)
+    # header size H: slice self.B[base:base+H] feeding struct.unpack
     H = None
     size_var = None
     fmt_ok = None
@@ -163,12 +177,16 @@ def analyse_receive(ctx):
                         if not okp:
                             pad = None
                     sl = strip_wrappers(sl)
+                    lo_off = None
                     if isinstance(sl, ast.Subscript) and unparse(sl.value) == Btxt and isinstance(sl.slice, ast.Slice) \
-                            and sl.slice.step is None:
-                        lo = 0 if sl.slice.lower is None else cval(ev, sl.slice.lower)[1]
-                        okh, h = cval(ev, sl.slice.upper) if sl.slice.upper is not None else (False, None)
-                        if okh and lo == 0 and isinstance(h, int):
-                            H = h
+                            and sl.slice.step is None and sl.slice.upper is not None:
+                        lo_l = linear.lin(sl.slice.lower, ev) if sl.slice.lower is not None else {1: 0}
+                        hi_l = linear.lin(sl.slice.upper, ev)
+                        if lo_l is not None and hi_l is not None:
+                            lo_off = linear.const_of(linear._add(lo_l, base, -1))
+                            hi_off = linear.const_of(linear._add(hi_l, base, -1))
+                            if lo_off is not None and hi_off is not None:
+                                H = hi_off
                     # the result must be indexed [0]
                     idx_ok = isinstance(s.value, ast.Subscript) and cval(ev, s.value.slice) == (True, 0)
                     if okf and isinstance(fmt, str) and pad is not None and H is not None:
@@ -179,10 +197,10 @@ def analyse_receive(ctx):
                         big = fmt[:1] in (">", "!")
                         unsigned = fmt[1:] in ("I", "L", "H", "Q", "B")
                         zero = isinstance(pad, (bytes, bytearray)) and all(b == 0 for b in pad)
-                        fmt_ok = (big and unsigned and zero and size == len(pad) + H and idx_ok and len(fmt) == 2)
+                        fmt_ok = (big and unsigned and zero and lo_off == 0 and size == len(pad) + H and idx_ok and len(fmt) == 2)
                         ctx.check("C05.arith", fmt_ok, W(n), n.stmt,
-                                  "size is not decoded as a big-endian unsigned integer from exactly the first %s buffer bytes (format %r, pad %r, calcsize %s)" % (H, fmt, pad, size),
-                                  "size = big-endian unsigned from %s[:%d] (format %r, %d zero pad byte(s))" % (Btxt, H, fmt, len(pad)))
+                                  "size is not decoded as a big-endian unsigned integer from exactly the first %s bytes of the unread buffer (bytes [%s:%s], format %r, pad %r, calcsize %s): header bytes are ignored or misread" % (H, lo_off, H, fmt, pad, size),
+                                  "size = big-endian unsigned from the first %d unread bytes (format %r, %d zero pad byte(s))" % (H, fmt, len(pad)))
     if H is None or size_var is None:
         ctx.undecided("C05.arith", W(loop), loop.stmt, "could not find `size = struct.unpack(fmt, pad + %s[:H])[0]` in the peel loop" % Btxt)
         return None
@@ -194,14 +212,14 @@ def analyse_receive(ctx):
     if cn is not None:
         l, op = cn
         rest = {k: v for k, v in l.items() if k not in (1,)}
-        if rest == {lenB: 1} and op in (">", ">="):
+        if linear.norm(rest) == linear.norm(linear._add({lenB: 1}, base, -1)) and op in (">", ">="):
             c = -l.get(1, 0)
             if op == ">=":
                 c -= 1
             okloop = (H - 1 <= c <= H)
             what = "loop continues while %s > %d" % (lenB, c)
     ctx.check("C05.peel", okloop, W(loop), loop.stmt,
-              "loop condition must hold whenever a complete minimal frame (%d+1 bytes) is buffered and guarantee %d header bytes: need len > c with %d <= c <= %d" % (H, H, H - 1, H),
+              "loop condition must hold whenever a complete minimal frame (%d+1 bytes) is unread in the buffer and guarantee %d header bytes: need (unread length) > c with %d <= c <= %d" % (H, H, H - 1, H),
               what if okloop else "")
     # ---- completeness test dominating the delivery
     comp = None
@@ -218,16 +236,16 @@ def analyse_receive(ctx):
                     reg2 = {x.id for x in edge_region(g, n, kind2)}
                     if up.id in reg2:
                         # normalise to the branch on which the delivery lies
-                        want = {lenB: 1, size_var: -1, 1: -H}
+                        want = linear._add({lenB: 1, size_var: -1, 1: -H}, base, -1)
                         if kind2 == "true":
                             good = (op == ">=" and linear.norm(l) == linear.norm(want)) or \
-                                   (op == ">" and linear.norm(l) == linear.norm({lenB: 1, size_var: -1, 1: -H + 1}))
+                                   (op == ">" and linear.norm(l) == linear.norm(linear._add(want, {1: 1}, 1)))
                         else:
                             # delivery on the false edge of  (H+size) > len  i.e. not(len < H+size)
                             neg = {k: -v for k, v in l.items()}
                             good = (op == ">" and linear.norm(neg) == linear.norm(want))
                         ctx.check("C05.arith", good, W(n), n.stmt,
-                                  "completeness test must be %s >= %d + %s exactly (a complete frame would be skipped or an incomplete one delivered)" % (lenB, H, size_var),
+                                  "completeness test must be (unread length = %s%s) >= %d + %s exactly (a complete frame would be held back or an incomplete one delivered)" % (lenB, " - " + cursor[0] if cursor else "", H, size_var),
                                   "delivery guarded by %s >= %d + %s" % (lenB, H, size_var))
                         ctx.hold("C05.peel", W(up), up.stmt, "single delivery dominated by the completeness test")
                         # the other branch leaves the loop without reaching the loop test again
@@ -257,40 +275,74 @@ def analyse_receive(ctx):
     if isinstance(arg, ast.Subscript) and unparse(arg.value) == Btxt and isinstance(arg.slice, ast.Slice) and arg.slice.step is None:
         lo = linear.lin(arg.slice.lower, ev) if arg.slice.lower is not None else {1: 0}
         hi = linear.lin(arg.slice.upper, ev) if arg.slice.upper is not None else None
-        okp = linear.equal(lo, {1: H}) and linear.equal(hi, {1: H, size_var: 1})
+        okp = linear.equal(lo, shifted({1: H})) and linear.equal(hi, shifted({1: H, size_var: 1}))
     ctx.check("C05.arith", okp, W(up), up.stmt,
               "delivered payload must be %s[%d:%d+%s]" % (Btxt, H, H, size_var), "payload = %s[%d:%d+%s]" % (Btxt, H, H, size_var))
-    rem = []
-    for n in body:
-        s = n.stmt
-        if n.kind == "stmt" and isinstance(s, ast.Assign) and any(unparse(t) == Btxt for t in s.targets):
-            rem.append(n)
-        elif n.kind == "stmt" and isinstance(s, ast.Delete) and any(isinstance(t, ast.Subscript) and unparse(t.value) == Btxt for t in s.targets):
-            rem.append(n)
-    okr = None
-    if len(rem) == 1:
-        s = rem[0].stmt
-        if isinstance(s, ast.Assign):
-            v = strip_wrappers(s.value)
-            if isinstance(v, ast.Subscript) and unparse(v.value) == Btxt and isinstance(v.slice, ast.Slice) and v.slice.upper is None and v.slice.step is None:
-                okr = linear.equal(linear.lin(v.slice.lower, ev), {1: H, size_var: 1})
-            else:
-                okr = False
-        else:
-            t = s.targets[0]
-            if isinstance(t.slice, ast.Slice) and t.slice.step is None:
-                lo = linear.lin(t.slice.lower, ev) if t.slice.lower is not None else {1: 0}
-                okr = linear.equal(lo, {1: 0}) and linear.equal(linear.lin(t.slice.upper, ev), {1: H, size_var: 1})
-        ctx.check("C05.arith", okr, W(rem[0]), rem[0].stmt,
-                  "remainder must be %s[%d+%s:]" % (Btxt, H, size_var), "remainder = %s[%d+%s:]" % (Btxt, H, size_var))
-        # the remainder update lies on every path from the delivery branch back to the loop test,
-        # and the payload is taken before the buffer is cut
-        ok, p = g.must_pass(comp[0], [rem[0]], [loop], edge_ok=lambda a, b, k: not (a is comp[0] and (b.id not in body_ids)))
-        on_deliver_path = g.path(up, lambda x: x is loop, avoid=[rem[0]]) is None or g.path(rem[0], lambda x: x is up) is not None
-        ctx.check("C05.peel", on_deliver_path, W(rem[0]), rem[0].stmt,
-                  "a path delivers a frame and returns to the loop test without removing it from the buffer (duplicate delivery)", "frame removed from the buffer on the delivery path")
+    if cursor is not None:
+        cname, adv, init = cursor
+        okadv = linear.equal(linear.lin(adv.stmt.value, ev), {1: H, size_var: 1})
+        ctx.check("C05.arith", okadv, W(adv), adv.stmt, "the read cursor must advance by exactly %d + %s per delivered frame" % (H, size_var), "cursor += %d + %s" % (H, size_var))
+        on_deliver_path = g.path(up, lambda x: x is loop, avoid=[adv]) is None or g.path(adv, lambda x: x is up) is not None
+        ctx.check("C05.peel", on_deliver_path, W(adv), adv.stmt,
+                  "a path delivers a frame and returns to the loop test without advancing the cursor (duplicate delivery)", "cursor advanced on the delivery path")
+        # after the loop, on every path to the exit, the consumed prefix is cut off the buffer (and only there)
+        cuts = []
+        for n in region:
+            if n.id in body_ids or n.kind != "stmt":
+                continue
+            st = n.stmt
+            if isinstance(st, ast.Delete) and len(st.targets) == 1 and isinstance(st.targets[0], ast.Subscript) and unparse(st.targets[0].value) == Btxt \
+                    and isinstance(st.targets[0].slice, ast.Slice) and st.targets[0].slice.step is None:
+                sl = st.targets[0].slice
+                lo = linear.lin(sl.lower, ev) if sl.lower is not None else {1: 0}
+                if linear.equal(lo, {1: 0}) and sl.upper is not None and linear.equal(linear.lin(sl.upper, ev), {cname: 1}):
+                    cuts.append(n)
+            elif isinstance(st, ast.Assign) and any(unparse(t) == Btxt for t in st.targets):
+                v = strip_wrappers(st.value)
+                if isinstance(v, ast.Subscript) and unparse(v.value) == Btxt and isinstance(v.slice, ast.Slice) and v.slice.upper is None and v.slice.step is None \
+                        and v.slice.lower is not None and linear.equal(linear.lin(v.slice.lower, ev), {cname: 1}):
+                    cuts.append(n)
+        inbody_cut = [n for n in body if n.kind == "stmt" and ((isinstance(n.stmt, ast.Assign) and any(unparse(t) == Btxt for t in n.stmt.targets)) or
+                                                                (isinstance(n.stmt, ast.Delete) and any(isinstance(t, ast.Subscript) and unparse(t.value) == Btxt for t in n.stmt.targets)))]
+        okcut = len(cuts) == 1 and not inbody_cut
+        if okcut:
+            ok2, pth = g.must_pass(init, [cuts[0]], [g.exit], edge_ok=None)
+            okcut = bool(ok2)
+        ctx.check("C05.arith", okcut, W(cuts[0] if cuts else loop), cuts[0].stmt if cuts else loop.stmt,
+                  "with a read cursor the consumed prefix %s[:%s] must be cut off exactly once after the loop on every path (found %d cut(s) after, %d inside the loop)" % (Btxt, cname, len(cuts), len(inbody_cut)),
+                  "consumed prefix cut off once after the loop")
     else:
-        ctx.violate("C05.arith", W(loop), loop.stmt, "expected exactly one statement that cuts the delivered frame off %s, found %d" % (Btxt, len(rem)))
+        rem = []
+        for n in body:
+            s = n.stmt
+            if n.kind == "stmt" and isinstance(s, ast.Assign) and any(unparse(t) == Btxt for t in s.targets):
+                rem.append(n)
+            elif n.kind == "stmt" and isinstance(s, ast.Delete) and any(isinstance(t, ast.Subscript) and unparse(t.value) == Btxt for t in s.targets):
+                rem.append(n)
+        okr = None
+        if len(rem) == 1:
+            s = rem[0].stmt
+            if isinstance(s, ast.Assign):
+                v = strip_wrappers(s.value)
+                if isinstance(v, ast.Subscript) and unparse(v.value) == Btxt and isinstance(v.slice, ast.Slice) and v.slice.upper is None and v.slice.step is None:
+                    okr = linear.equal(linear.lin(v.slice.lower, ev), {1: H, size_var: 1})
+                else:
+                    okr = False
+            else:
+                t = s.targets[0]
+                if isinstance(t.slice, ast.Slice) and t.slice.step is None:
+                    lo = linear.lin(t.slice.lower, ev) if t.slice.lower is not None else {1: 0}
+                    okr = linear.equal(lo, {1: 0}) and linear.equal(linear.lin(t.slice.upper, ev), {1: H, size_var: 1})
+            ctx.check("C05.arith", okr, W(rem[0]), rem[0].stmt,
+                      "remainder must be %s[%d+%s:]" % (Btxt, H, size_var), "remainder = %s[%d+%s:]" % (Btxt, H, size_var))
+            # the remainder update lies on every path from the delivery branch back to the loop test,
+            # and the payload is taken before the buffer is cut
+            ok, p = g.must_pass(comp[0], [rem[0]], [loop], edge_ok=lambda a, b, k: not (a is comp[0] and (b.id not in body_ids)))
+            on_deliver_path = g.path(up, lambda x: x is loop, avoid=[rem[0]]) is None or g.path(rem[0], lambda x: x is up) is not None
+            ctx.check("C05.peel", on_deliver_path, W(rem[0]), rem[0].stmt,
+                      "a path delivers a frame and returns to the loop test without removing it from the buffer (duplicate delivery)", "frame removed from the buffer on the delivery path")
+        else:
+            ctx.violate("C05.arith", W(loop), loop.stmt, "expected exactly one statement that cuts the delivered frame off %s, found %d" % (Btxt, len(rem)))
     # ---- pass-through branch
     pups = [n for n in other if calls_in(n, "toUpper", selfonly=True)]
     ok = len(pups) == 1 and len(calls_in(pups[0], "toUpper")[0].args) == 1 and isinstance(calls_in(pups[0], "toUpper")[0].args[0], ast.Name) \
